@@ -54,8 +54,8 @@ struct RawTrace { int tracer; std::string file; unsigned long line; std::string 
 
 struct World;
 struct RecTracer : trompeloeil::tracer {
-  World* w; int idx;
-  RecTracer(World* w_, int i) : w(w_), idx(i) {}
+  World* w; int idx; bool reenter;
+  RecTracer(World* w_, int i, bool re = false) : w(w_), idx(i), reenter(re) {}
   void trace(char const* file, unsigned long line, std::string const& call) override;
 };
 struct StreamTracerBox {
@@ -90,6 +90,7 @@ struct World {
   int callobj = 0;     // object of the call in progress
   int callfn = 0;      // function of the outermost call in progress
   int calla1 = 0, calla2 = 0;
+  bool in_reentry = false;
   int throw_depth = 0; // nesting depth at which the exception in flight was thrown
   int armed_ok = 0;    // 1 + reporter generation the OK callback installs, 0 = none
   void fire_armed_ok();
